@@ -27,6 +27,9 @@ Lemma run_op_F : forall f o,
     | OBind w id k m r acts => upd w (fun c => set_hs c (w_hs c ++ [mkH id k m r acts]))
     | OUnbind w id => upd w (fun c => set_hs c (filter (fun hd => negb (h_id hd =? id)) (w_hs c)))
     | OGeom w => getw w ;;; ret tt
+    | OTouch w j walk =>
+      getw w ;;; (match j with Some a => getw a ;;; ret tt | None => ret tt end) ;;;
+      if walk then scroll_up f w else ret tt
     | ONop => ret tt
     | OFrameRef _ | OFrameUnref _ => ret tt      (* not calls: in a script they do nothing and leave no trace *)
     end).
